@@ -17,7 +17,7 @@ FD = _d.FieldDescriptor
 PROFILE = grammar.profile(
     paged_variants=True, p_list=1.0, p_get=0.3, p_create=0.1, p_update=0.1, p_delete=0.1, p_custom=0.15,
     p_sstream=0.0, p_cstream=0.0, p_bidi=0.0, p_lro=0.0, p_service_config=0.9, p_yaml=0.05,
-    p_second_file=0.5, p_shuffle_numbers=0.5, resources=(1, 3), transports=["grpc", "grpc", "grpc+rest"])
+    p_second_file=0.5, p_shuffle_numbers=0.5, resources=(1, 3), transports=["grpc", "grpc+rest", "grpc+rest"])
 
 BUDGET = {
     "quick": {"worlds": 150, "runs": 120, "wall_cap": 300, "world_wall": 90},
@@ -25,7 +25,8 @@ BUDGET = {
 }
 REQUIRED_PROBES = ["multi_page", "empty_middle_page", "fault_between_pages", "request_reused", "reuse_during",
                    "cancelled_mid_iteration", "nonpaged_method", "map_paged", "scalar_paged", "concurrent_pagers",
-                   "nonretryable_between_pages", "explicit_options_multi_page", "async_multi_page", "pages_consumed"]
+                   "nonretryable_between_pages", "explicit_options_multi_page", "async_multi_page", "pages_consumed", "rest_fetch",
+                   "rest_multi_page"]
 ASSUMPTIONS = ["corners excluded from the grammar: both page_size and max_results in one request; wrapper-typed "
                "page_size; streaming RPCs with paging-shaped messages (DESIGN.md section 3)"]
 
@@ -183,16 +184,23 @@ def gen_scenarios(spec, rng, n):
     codec = protos.Codec(files)
     out = []
     for i in range(n):
-        client = rng.choice(["sync", "async", "async"])
-        nact = 1 if client == "sync" else rng.choice([1, 2, 2, 3])
+        tr = spec["options"]["transport"]
+        client = rng.choice(["sync", "async", "async"] + (["rest"] if "rest" in tr else []))
+        if "grpc" not in tr:
+            client = "rest"
+        nact = 1 if client != "async" else rng.choice([1, 2, 2, 3])
         actors = [{"start": 0.0 if a == 0 else round(rng.choice([0.0, 0.004, 0.02]), 3), "ops": []} for a in range(nact)]
         nops = rng.randint(1, 3) if nact == 1 else nact + rng.randint(0, 1)
         seq = 0
         for j in range(nops):
             fs, s, m, cls = rng.choice(lm)
+            if client == "rest" and not m.get("http"):
+                continue
             oid = f"o{seq}"
             seq += 1
             op = gen_op(spec, rng, codec, fs, s, m, cls, oid, client)
+            if client == "rest":
+                _restify(spec, rng, fs, s, m, op)
             a = actors[j % nact]
             a["ops"].append(op)
             # caller reuses the same request object for a second call, after or during the first
@@ -206,6 +214,9 @@ def gen_scenarios(spec, rng, n):
                 op2["call"] = dict(op.get("call") or {})
                 # faults of op2 were drawn against its own call options; redraw with op's
                 op2["faults"] = gen_faults(rng, spec, fs, s, m, op2["call"], len(op2["pages"]))
+                if client == "rest":
+                    _restify(spec, rng, fs, s, m, op2)
+                    op2["request"] = op["request"]
                 if rng.random() < 0.5 and not op.get("stop_after"):
                     total = sum(_page_len(p, cls) for p in op["pages"])
                     op["nested"] = {"after": rng.randint(0, total), "op": op2}
@@ -218,6 +229,23 @@ def gen_scenarios(spec, rng, n):
             sc["cancels"] = [{"actor": rng.randrange(len(sc["actors"])), "at": round(rng.choice([0.001, 0.01, 0.03, 0.08]), 3)}]
         out.append(sc)
     return out
+
+
+def _restify(spec, rng, fs, s, m, op):
+    """REST flavour: path variables must instantiate the binding; only status codes that come back
+    over HTTP as the same api-core class are injected; wrapper-typed max_results stays."""
+    from . import c04
+    from .. import simhttp
+    c04._fill_path_vars(rng, op["request"], m, m["http"], "ok")
+    c04.prune_empty(op["request"])
+    for k, lst in list((op.get("faults") or {}).items()):
+        op["faults"][k] = [o for o in lst if o["code"] in simhttp.ROUND_TRIP]
+        if not op["faults"][k]:
+            del op["faults"][k]
+    call = op.get("call") or {}
+    if isinstance(call.get("retry"), dict):
+        call["retry"]["codes"] = [c for c in call["retry"]["codes"] if c in simhttp.ROUND_TRIP] or ["UNAVAILABLE"]
+    call.pop("metadata", None)
 
 
 def _page_len(page, cls):
@@ -490,14 +518,29 @@ def judge_op(spec, codec, scenario, op, evs, probes):
     done = False
     fetched = 0
     for a in attempts:
-        if a["path"] != path:
+        if a.get("tr") != "rest" and a["path"] != path:
             return V("wrong_path", f"fetch went to {a['path']}")
         if done:
-            return V("fetch_after_last_page", f"a fetch was issued after the page with an empty next_page_token "
-                     f"(request token {codec.parse(m['input'], bytes.fromhex(a['reqs'][0])).page_token!r})")
+            return V("fetch_after_last_page", "a fetch was issued after the page with an empty next_page_token")
         if surfaced:
             return V("fetch_after_error", f"a fetch was issued after non-retryable {surfaced}")
-        got = codec.parse(m["input"], bytes.fromhex(a["reqs"][0]))
+        if a.get("tr") == "rest":
+            from . import c04
+            got = None
+            for b in c04.bindings(m):
+                if a["verb"].lower() == b["verb"]:
+                    try:
+                        r = c04.reverse(codec, m, b, a, bool((spec.get("options") or {}).get("rest-numeric-enums")), {})
+                    except c04.Reject as rj:
+                        return V("rest_" + rj.rule, str(rj))
+                    if r is not None:
+                        got = r[0]
+                        break
+            if got is None:
+                return V("rest_no_binding", f"{a['verb']} {a['url']} instantiates no declared binding")
+            _bump(probes, "rest_fetch")
+        else:
+            got = codec.parse(m["input"], bytes.fromhex(a["reqs"][0]))
         exp = type(base)()
         exp.CopyFrom(base)
         exp.page_token = tok
@@ -507,6 +550,8 @@ def judge_op(spec, codec, scenario, op, evs, probes):
                          + (" (request object reused by the caller: the pager must work on a copy)" if op.get("reuse_of") or op.get("nested") else ""))
             return V("request_changed", f"fetch of page {i}: request fields other than page_token differ from the caller's request")
         md = [kv for kv in a["md"]]
+        if a.get("tr") == "rest":
+            md = [kv for kv in md if kv[0].lower() in ("x-goog-request-params", "x-caller-tag")]
         if first_md is None:
             first_md = md
         elif md != first_md:
@@ -582,6 +627,8 @@ def judge_op(spec, codec, scenario, op, evs, probes):
         _bump(probes, "multi_page")
         if is_async:
             _bump(probes, "async_multi_page")
+        if scenario["client"] == "rest":
+            _bump(probes, "rest_multi_page")
         if any(not exp_items[j] for j in range(1, min(fetched, len(pages)) - 1)) or (
                 fetched >= 3 and any(not exp_items[j] for j in range(1, fetched - 1))):
             _bump(probes, "empty_middle_page")
